@@ -55,6 +55,8 @@ partial def parseExpr (table : Array Expr) (j : Json) : Expr :=
   | "pfx" => .pfx (jS j "s") inner
   | "sfx" => .sfx (jS j "s") inner
   | "style" => .style (jS j "s") inner
+  -- StyleR: the referenced string as it reads when the Action is invoked
+  | "styleR" => .style (jS j "s") inner
   | "tag" => .tag (jS j "s") inner
   | "usage" => .usage (jS j "s") inner
   | "nospace" => .nospace (jS j "s") inner
